@@ -46,7 +46,12 @@ type Case struct {
 	// Own: the server's SecurityConfig carries its own SessionCache (handshake-negotiated
 	// sessions still live in the global cache; the server falls back to it).
 	Own bool `json:"own,omitempty"`
+	// Map: the server maps the authenticated identity through a PostAuthPolicy (what server.New installs
+	// for a mapfile); the mapped identity is what the handshake established and what a resumption must restore.
+	Map bool `json:"map,omitempty"`
 }
+
+var mapIdentity bool
 
 // ownCache is the server's private cache for the current case, nil when the server uses the global one.
 var ownCache *security.SessionCache
@@ -73,6 +78,14 @@ type sess struct {
 func serverConfig() *security.SecurityConfig {
 	c := kit.BaseConfig(security.SecurityOptional, security.SecurityOptional, security.AuthClaimToBe)
 	c.SessionCache = ownCache
+	if mapIdentity {
+		c.PostAuthPolicy = func(authUser, peerAddr string, authenticated, encrypted bool) (string, []int) {
+			if !authenticated {
+				return "", nil
+			}
+			return "mapped-" + authUser + "@pool", nil
+		}
+	}
 	c.SessionDuration = 3600
 	c.SessionLease = 1800
 	return c
@@ -165,6 +178,9 @@ func (w *world) establish(variant int) string {
 		return fmt.Sprintf("honest establishment failed: client %v server %v", err, so.err)
 	}
 	s := &sess{sid: so.neg.SessionId, hasKey: withKey, authed: so.neg.Authentication, user: so.neg.User, alive: true, ccfg: ccfg}
+	if mapIdentity && authed && !strings.HasPrefix(so.neg.User, "mapped-") {
+		return fmt.Sprintf("C06 harness: the mapping policy was not applied at establishment (user %q)", so.neg.User)
+	}
 	if neg.SessionId != s.sid {
 		return "client and server disagree on the session id at establishment"
 	}
@@ -501,6 +517,7 @@ func runCase(c Case) (string, *world) {
 	if c.Own {
 		ownCache = security.NewSessionCache()
 	}
+	mapIdentity = c.Map
 	w := &world{}
 	n := 0
 	for oi, op := range c.Ops {
@@ -564,6 +581,7 @@ func runCase(c Case) (string, *world) {
 func genCase(t *rapid.T) Case {
 	var c Case
 	c.Own = rapid.Bool().Draw(t, "own")
+	c.Map = rapid.Bool().Draw(t, "map")
 	c.Ops = append(c.Ops, Op{K: "establish", V: rapid.IntRange(0, 3).Draw(t, "v0")})
 	n := rapid.IntRange(3, 12).Draw(t, "nops")
 	for i := 0; i < n; i++ {
@@ -611,7 +629,7 @@ func TestC06Sweep(t *testing.T) {
 			for kind := 0; kind < 9; kind++ {
 				for _, rr := range []bool{true, false} {
 					for _, own := range []bool{false, true} {
-						c := Case{Own: own, Ops: []Op{{K: "establish", V: est}}}
+						c := Case{Own: own, Map: (kind+est)%2 == 0, Ops: []Op{{K: "establish", V: est}}}
 						switch life {
 						case "resumed1":
 							c.Ops = append(c.Ops, Op{K: "resume"})
